@@ -223,6 +223,10 @@ struct Emitter {
     } else if (auto *X = dyn_cast<LambdaExpr>(S)) {
       o["k"] = "lambda";
       pendingLambdas.push_back(X->getCallOperator());
+      if (X->isGenericLambda())
+        if (auto *FT = X->getLambdaClass()->getDependentLambdaCallOperator())
+          for (auto *Sp : FT->specializations()) pendingLambdas.push_back(Sp);
+      o["generic"] = X->isGenericLambda();
       o["fn"] = fname(X->getCallOperator());
       o["fnloc"] = loc(X->getCallOperator()->getLocation());
       o["mutable"] = X->isMutable();
